@@ -368,11 +368,13 @@ func runC08(w *mon.W) {
 			w.Add("counting_cases_at_block_sizes", 1)
 		}
 		alpha := "ACGT"
-		switch r.Intn(4) {
+		switch r.Intn(5) {
 		case 0:
 			alpha = "ACGTN"
 		case 1:
 			alpha = "ACGTRYKMSWUX-*"
+		case 2:
+			alpha = "ACGU" // an RNA spelling holds no T at all: its U codons are not the T codons of the table
 		}
 		seq := randCase(r, randString(r, alpha, n), []float64{0, 0.5, 1}[r.Intn(3)])
 		w.Begin(id, seq)
